@@ -374,6 +374,27 @@ def c19(driver):
                                 'declining pull request %d declined %s, its '
                                 'open integration pull requests are %s' % (
                                     k, sorted(declined), sorted(expect))})
+        # whatever the job answered: once a declined parent was evaluated to
+        # the end, none of its integration branches / open integration pull
+        # requests may be left
+        k = evaluated_pr(pre, ev)
+        par = [p for p in pre['prs'] if p['id'] == k and
+               p['state'] == 'DECLINED' and p['author'] != ROBOT]
+        if par and status in ('PullRequestDeclined', 'NothingToDo'):
+            src = par[0]['src']
+            left = [b for b in hs if wref_parts(b) and
+                    wref_parts(b)[1] == src]
+            left_prs = [c['id'] for c in children if c['state'] == 'OPEN' and
+                        wref_parts(c['src']) and
+                        wref_parts(c['src'])[1] == src]
+            stats['c19_declined_evaluations'] = 1
+            if left or left_prs:
+                out.append({'property': 'C19', 'fingerprint':
+                            'declined-leftovers', 'msg':
+                            'pull request %d is declined and was evaluated '
+                            '(%s) but integration branches %s / open '
+                            'integration pull requests %s are left' % (
+                                k, status, left, left_prs)})
         if status in ('SuccessMessage', 'Merged'):
             for p in post['prs']:
                 if p['author'] != ROBOT and p['state'] == 'MERGED':
